@@ -76,6 +76,17 @@ Six rounds of seeded changes have been collected and the oracle under evaluation
 The anchored function must still read exactly as before; the break must nevertheless be observable through the PUBLIC behaviour the statement describes, on inputs inside the statement's quantifier. It must read like a plausible refactoring / optimisation / clean-up and keep the 102 tests green (helpers with their own unit or property tests are hard to change unnoticed — look for the ones without). Your demonstration test must construct the trigger deterministically and show the property's statement (not an implementation detail) failing.
 Already used in earlier rounds, so pick something else: `SortedIds` addition without re-sorting; `BinaryIdPair` conversion collapsing three ids to two; `Linear` Sum folding from a variable; `Bound::pow` loosened; the parser's line counter; the id-tag parser of the MPS reader; `Digest` comparison without the algorithm; timestamp precision of annotation setters.
 '''
+HARD8 = '''
+## HARD MODE, ROUND 8 (read carefully)
+Seven rounds of seeded changes have been collected and the oracle under evaluation — a runtime monitor that drives the public API with hundreds of thousands of generated inputs, histories and SDK pipelines per property and compares with an independent exact model — catches slips planted inside the anchored functions and inside the helpers they rely on. This round, produce the kind of regression that comes with FEATURE WORK: implement a small, plausible, well-meant EXTENSION or behaviour change that a maintainer could really want (it may be 10-40 lines and may add a private helper, an enum arm, an optional code path or a new accepted input), such that everything the extension is *for* works, the 102 tests stay green — and the stated property silently stops holding for some inputs that were handled correctly before. Examples of the genre (pick what fits THIS code, do not copy blindly):
+- support for one more case (another variable kind, another section / bound type / keyword / media type, negative or fractional values where only non-negative integers were handled, an additional optional field) whose new branch captures inputs that used to take the old, correct branch;
+- a convenience: automatic normalisation / simplification / deduplication / sorting / clamping / defaulting of inputs or outputs "to be helpful", which changes a result the statement pins down;
+- robustness: turning a panic or error into a silent fallback, skipping entries that "cannot be handled", tolerating duplicates by keeping the first/last one;
+- an early-out or special case for a common situation (all-zero, already-satisfied, single element, identical arguments) whose condition is slightly too broad;
+- aligning one function's behaviour with a sibling function ("for consistency") where the statement requires them to differ, or sharing code between two paths that need different details;
+- a tolerance made configurable / relative / scaled, a limit raised or lowered, a comparison made inclusive.
+The extension must be coherent on its own terms (a reviewer reading the diff and its doc comment sees a feature, not a bug) and must not change any public signature. Your demonstration test must (i) show the property's statement failing on inputs INSIDE its quantifier that were handled correctly before, constructed deterministically, and (ii) may additionally show the new feature working.
+'''
 os.makedirs('/tmp/seedwork', exist_ok=True)
 BENIGN = """You are a careful Rust engineer helping to evaluate a test oracle for FALSE ALARMS. The oracle is a runtime monitor that drives the public API of the OMMX Rust SDK with many generated inputs and checks ONE stated semantic property. A good oracle must stay silent on any code change that keeps the property true. Your job: produce realistic BEHAVIOUR-PRESERVING CHANGES ("benign refactorings") of the code the property is anchored in — changes after which the property STILL HOLDS for every input, but which alter as much as possible of what the property does NOT promise.
 
@@ -149,7 +160,7 @@ for pid, p in props.items():
         continue
     text = json.dumps({k: p[k] for k in ['id', 'title', 'statement', 'quantifier', 'why_tests_cant', 'anchors']}, indent=1)
     wt, out, demo = f'/tmp/seed{R}-{pid}', f'/tmp/seed{R}-{pid}-out', f'seeded_demo{R}_{pid.lower()}'
-    hard = {1: '', 2: HARD2, 3: HARD3, 4: HARD4, 5: HARD5, 6: HARD6, 7: HARD7}[rnd]
+    hard = {1: '', 2: HARD2, 3: HARD3, 4: HARD4, 5: HARD5, 6: HARD6, 7: HARD7, 8: HARD8}[rnd]
     prompt = f'''You are a careful Rust engineer helping to evaluate how well a test oracle detects regressions. Your job: produce realistic BREAKING CHANGES ("seeded defects") to the OMMX Rust SDK that violate ONE stated semantic property while still compiling and passing the project's existing test suite.
 
 ## Your workspace
